@@ -130,6 +130,7 @@ type World struct {
 	restarts int
 	orc      *oracle
 
+	failNextMirrorCommit bool
 	reqOfOp  map[string]*request
 	tickets  []ticketRec
 	cosigned []*cosigned
@@ -163,6 +164,12 @@ func (w *World) nextPlan() int {
 
 func (w *World) seam(inc *incarnation, ctx context.Context, kind, key string, mut bool, p *pendingOp) opResult {
 	if w.auto {
+		if w.failNextMirrorCommit && kind == "lreplace" && w.orc.keyMirror[p.id] != nil {
+			// scripted fault: the mirror checkpoint CAS fails without effect
+			w.failNextMirrorCommit = false
+			w.sim.Probe("script.commit-failed")
+			return opResult{err: fmt.Errorf("%w (scripted lreplace)", errInjected)}
+		}
 		w.smu.Lock()
 		w.apply(inc, kind, key, p, true)
 		w.smu.Unlock()
